@@ -160,11 +160,18 @@ impl ValueMetadata {
         }
     }
     
+    /// The instant `expires_in` after `now`; a time-to-live too large to be represented
+    /// saturates to a deadline a century away instead of overflowing `Instant`
+    pub fn deadline_after(now: Instant, expires_in: Duration) -> Instant {
+        now.checked_add(expires_in)
+            .unwrap_or_else(|| now + Duration::from_secs(100 * 365 * 24 * 60 * 60))
+    }
+    
     /// Create metadata with expiration time
     pub fn with_expiration(expires_in: Duration) -> Self {
         let now = Instant::now();
         ValueMetadata {
-            expires_at: Some(now + expires_in),
+            expires_at: Some(Self::deadline_after(now, expires_in)),
             created_at: now,
             last_accessed: now,
             encoding: StringEncoding::Raw,
@@ -185,7 +192,7 @@ impl ValueMetadata {
     
     /// Set expiration time
     pub fn set_expiration(&mut self, expires_in: Duration) {
-        self.expires_at = Some(Instant::now() + expires_in);
+        self.expires_at = Some(Self::deadline_after(Instant::now(), expires_in));
     }
     
     /// Clear expiration
